@@ -2,7 +2,7 @@
 # run every registered check at the given tier; print one line per property
 tier="${1:-quick}"
 cd "$(dirname "$0")"
-for p in $(python3 -c "import json; print(' '.join(sorted(json.load(open('harness/registry.json')))))"); do
+for p in $(python3 -c "import json; print(' '.join(k for k in sorted(json.load(open('harness/registry.json'))) if k.startswith('C')))"); do
   s=$(date +%s)
   out=$(./check "$p" "$tier" 2>/dev/null)
   rc=$?
